@@ -74,18 +74,31 @@ where
     /// under the hood. See the structure's top-level comment as for why it is
     /// not hidden using interior mutability.
     pub fn find(&mut self, value: &Value) -> Value {
-        if let Some(rep) = self.reps.get(value).cloned() {
-            if rep == *value {
-                value.clone()
-            } else {
-                let f = self.find(&rep);
-                self.reps.insert(value, f.clone());
-                f
+        // Walk up to the root without recursing, as the chain of parents can be as long as
+        // the number of values in the forest
+        let mut root = value.clone();
+        loop {
+            match self.reps.get(&root).cloned() {
+                Some(parent) if parent == root => break,
+                Some(parent) => root = parent,
+                None => {
+                    self.reps.insert(&root, root.clone());
+                    break;
+                }
             }
-        } else {
-            self.reps.insert(value, value.clone());
-            self.find(value)
         }
+
+        // Then point everything on the way directly at the root
+        let mut current = value.clone();
+        while current != root {
+            let Some(parent) = self.reps.get(&current).cloned() else {
+                break;
+            };
+            self.reps.insert(&current, root.clone());
+            current = parent;
+        }
+
+        root
     }
 
     /// Merges the set containing `v1` with the set containing `v2`, using
